@@ -67,6 +67,18 @@ def run(ctx):
     if opneg.violated != "NoStuckCall":
         raise vlib.Inconclusive("Lock model: the refuted variant (CleanupChannel called from the outgoing-request hook) is not refuted")
     ctx.extra["lock_model_open_variant_refuted"] = True
+    # event delivery: pubsub lock (read-held by Publish across all callbacks) x per-transfer subscription table lock x the monitor's restart lock:
+    # the code's order has no cycle; the two refuted variants (table lock held across unsubscribe in Stop; restart lock held across the monitor's shutdown) must be caught
+    ls = ctx.tlc("LockSub", "locksub.cfg", timeout=300)
+    if ls.violated:
+        raise vlib.Inconclusive("LockSub model: the code's lock order around event delivery has a stuck state: %s\n%s" % (ls.violated, ls.out[-1500:]))
+    vlib.tlc_must_pass(ls, "LockSub")
+    ctx.add_model(ls)
+    for cfgname in ("locksub-neg-stop.cfg", "locksub-neg-giveup.cfg"):
+        neg2 = ctx.tlc("LockSub", cfgname, timeout=300)
+        if neg2.violated != "NoStuck":
+            raise vlib.Inconclusive("LockSub model: refuted variant %s is not refuted" % cfgname)
+    ctx.extra["locksub_variants_refuted"] = True
     b = ctx.go_bin("lockx", race=True)
     out1 = ctx.path("lock-replay.ndjson")
     r = ctx.run_go(b, "TestReplay", env={"VERIF_OUT": out1}, timeout=300)
@@ -142,9 +154,16 @@ def run(ctx):
         ctx.violation({"rule": "C20.noRace", "where": "monitorOverlap"}, "data race reported by the race detector in the monitor overlap scenarios", detail=r.stdout[-6000:])
     elif r.returncode != 0:
         raise vlib.Inconclusive("lockx TestMonitorOverlap failed:\n" + r.stdout[-3000:])
+    # Manager.Stop issued while a subscriber callback (global / per-transfer, ordinary / terminal event) is still running
+    out4 = ctx.path("lock-stopoverlap.ndjson")
+    r = ctx.run_go(b, "TestStopOverlap", env={"VERIF_OUT": out4}, timeout=600)
+    if "DATA RACE" in r.stdout:
+        ctx.violation({"rule": "C20.noRace", "where": "stopOverlap"}, "data race reported by the race detector in the stop overlap scenarios", detail=r.stdout[-6000:])
+    elif r.returncode != 0:
+        raise vlib.Inconclusive("lockx TestStopOverlap failed:\n" + r.stdout[-3000:])
     both = ctx.path("lock-obs.ndjson")
     with open(both, "w") as f:
-        for p in (out1, out2, out3):
+        for p in (out1, out2, out3, out4):
             if os.path.exists(p):
                 f.write(open(p).read())
     n, verdicts = stages.judge(ctx, both, module="LockJudge")
